@@ -539,6 +539,8 @@ def gen_crystal_world(prop, root, w, tier):
     total_atoms = sum(len(x[1]) for x in structs)
     if total_atoms > 300:
         n_sched = max(2, n_sched // 2)
+    elif total_atoms <= 200:
+        n_sched += 2  # small structures are cheap: more schedules
     a0 = structs[0][1]
     # exhaustive-first: every atom in turn as the first seed (small structures only;
     # reported per structure, never as exhaustiveness of the property)
